@@ -6,21 +6,21 @@
 //	config <offsetSize>
 //	reset <ecxhex>          => ok|err                      fresh dir, 1.ecx written, NewEcVolume
 //	find <key>              => ok <offUnits> <size> | notfound | err
-//	del <key>               => ok|err <ecxhex> <ecjhex>    DeleteNeedleFromEcx, then both files
+//	del <key>               => ok|err <ecxdiff> <ecjdiff>  DeleteNeedleFromEcx, then both files (as diffTok against the previous contents)
 //	idx                     => ok|err <idxhex>             WriteIdxFileFromEcIndex (ecx+ecj as they are)
 //	rebuild                 => ok|err <ecxhex> <ecjExists> volume closed, ORIGINAL ecx restored, RebuildEcxFile
 //	sreset <idxhex>         => ok|err <sdxhex>             NewSortedFileNeedleMap (generates .sdx)
 //	sget <key>              => ok <offUnits> <size> | notfound
-//	sdel <key> <offUnits>   => ok|err <sdxhex> <idxhex>    SortedFileNeedleMap.Delete, then both files
+//	sdel <key> <offUnits>   => ok|err <sdxdiff> <idxdiff>  SortedFileNeedleMap.Delete, then both files (diffTok)
 package main
 
 import (
-	"encoding/binary"
 	"fmt"
 	"os"
 	"path/filepath"
 	"sort"
 	"strconv"
+	"strings"
 
 	"github.com/chrislusf/seaweedfs/weed/storage"
 	"github.com/chrislusf/seaweedfs/weed/storage/erasure_coding"
@@ -38,6 +38,10 @@ type state struct {
 	dir  string
 	ev   *erasure_coding.EcVolume
 	orig []byte
+	ecx  []byte // contents as last reported
+	ecj  []byte
+	sdx  []byte
+	idx  []byte
 	sm   *storage.SortedFileNeedleMap
 	sidx *os.File
 }
@@ -75,6 +79,36 @@ func readFile(p string) []byte {
 	return b
 }
 
+// diffTok is the canonical difference of a file against its previous contents:
+// "<newlen>@<off>:<hex>,<off>:<hex>..." with one item per maximal run of positions that are new
+// or whose byte changed ("<newlen>@-" when there is none).
+func diffTok(old, cur []byte) string {
+	var sb strings.Builder
+	fmt.Fprintf(&sb, "%d@", len(cur))
+	n := 0
+	i := 0
+	for i < len(cur) {
+		if i < len(old) && old[i] == cur[i] {
+			i++
+			continue
+		}
+		j := i
+		for j < len(cur) && (j >= len(old) || old[j] != cur[j]) {
+			j++
+		}
+		if n > 0 {
+			sb.WriteByte(',')
+		}
+		fmt.Fprintf(&sb, "%d:%s", i, hx.Hex(cur[i:j]))
+		n++
+		i = j
+	}
+	if n == 0 {
+		sb.WriteByte('-')
+	}
+	return sb.String()
+}
+
 func entry(key uint64, offUnits uint64, size int32) []byte {
 	return needle_map.ToBytes(types.NeedleId(key), types.ToOffset(int64(offUnits)*types.NeedlePaddingSize), types.Size(size))
 }
@@ -83,6 +117,8 @@ func opReset(ecx []byte) {
 	closeAll()
 	st.dir = newDir()
 	st.orig = append([]byte(nil), ecx...)
+	st.ecx = append([]byte(nil), ecx...)
+	st.ecj = nil
 	tr.Op("reset", []string{hx.Hex(ecx)}, hx.Guard(func() []string {
 		if err := os.WriteFile(filepath.Join(st.dir, "1.ecx"), ecx, 0644); err != nil {
 			return []string{"err"}
@@ -121,7 +157,10 @@ func opDel(key uint64) {
 			return []string{"novolume"}
 		}
 		err := st.ev.DeleteNeedleFromEcx(types.NeedleId(key))
-		return []string{hx.Err(err), hx.Hex(readFile(filepath.Join(st.dir, "1.ecx"))), hx.Hex(readFile(filepath.Join(st.dir, "1.ecj")))}
+		ecx, ecj := readFile(filepath.Join(st.dir, "1.ecx")), readFile(filepath.Join(st.dir, "1.ecj"))
+		out := []string{hx.Err(err), diffTok(st.ecx, ecx), diffTok(st.ecj, ecj)}
+		st.ecx, st.ecj = ecx, ecj
+		return out
 	}))
 }
 
@@ -171,7 +210,8 @@ func opSReset(idx []byte) {
 			return []string{"err"}
 		}
 		st.sm, st.sidx = sm, f
-		return []string{"ok", hx.Hex(readFile(base + ".sdx"))}
+		st.sdx, st.idx = readFile(base+".sdx"), append([]byte(nil), idx...)
+		return []string{"ok", hx.Hex(st.sdx)}
 	}))
 }
 
@@ -195,7 +235,10 @@ func opSDel(key uint64, off uint64) {
 		}
 		err := st.sm.Delete(types.NeedleId(key), types.ToOffset(int64(off)*types.NeedlePaddingSize))
 		base := filepath.Join(st.dir, "2")
-		return []string{hx.Err(err), hx.Hex(readFile(base + ".sdx")), hx.Hex(readFile(base + ".idx"))}
+		sdx, idx := readFile(base+".sdx"), readFile(base+".idx")
+		out := []string{hx.Err(err), diffTok(st.sdx, sdx), diffTok(st.idx, idx)}
+		st.sdx, st.idx = sdx, idx
+		return out
 	}))
 }
 
@@ -370,6 +413,10 @@ func replay(path string) {
 		}
 		switch f[0] {
 		case "config":
+			// a replay file recorded under the other offset width does not apply to this build
+			if arg(0) != "-" && arg(0) != strconv.Itoa(types.OffsetSize) {
+				return
+			}
 		case "reset":
 			opReset(hx.UnHex(arg(0)))
 		case "find":
@@ -403,7 +450,6 @@ func main() {
 		os.Exit(2)
 	}
 	defer os.RemoveAll(root)
-	_ = binary.BigEndian
 	tr.Op("config", []string{hx.I(int64(types.OffsetSize))}, nil)
 	if a.Ops != "" {
 		replay(a.Ops)
